@@ -52,13 +52,21 @@ def tolerance():
 
 
 def rand_cpd_case(rng, normalised=True, maxpar=3):
-    n = rng.randint(1, 5)
-    names = gen.node_names(rng, n)
-    card = [rng.choice([1, 2, 2, 3, 3, 4]) for _ in range(n)]
+    wide = rng.random() < .07
+    if wide:
+        # a CPD with 8-10 (mostly binary) parents: axis bookkeeping beyond 8 positions
+        n = rng.randint(9, 11)
+        names = gen.node_names(rng, n)
+        card = [rng.choice([1, 2, 2, 2, 2, 3]) for _ in range(n)]
+        maxpar = n - 1
+    else:
+        n = rng.randint(1, 5)
+        names = gen.node_names(rng, n)
+        card = [rng.choice([1, 2, 2, 3, 3, 4]) for _ in range(n)]
     labels = [gen.state_labels(rng, c) for c in card]
     child = rng.randrange(n)
     others = [v for v in range(n) if v != child]
-    parents = rng.sample(others, rng.randint(0, min(maxpar, len(others))))
+    parents = rng.sample(others, rng.randint(8, len(others)) if wide else rng.randint(0, min(maxpar, len(others))))
     ncols = 1
     for p in parents:
         ncols *= card[p]
@@ -68,6 +76,9 @@ def rand_cpd_case(rng, normalised=True, maxpar=3):
             cols.append(gen.rand_dist(rng, card[child]))
         else:
             cols.append(gen.rand_vals(rng, card[child], rng.choice(["generic", "small", "zeros"])))
+    if not normalised and rng.random() < .25:
+        sc = Fraction(1, 10 ** rng.choice([9, 12, 15]))         # column masses far below 1e-8: still an ordinary table to normalise
+        cols = [[x * sc for x in col] for col in cols]
     table = [[rs(cols[j][i]) for j in range(ncols)] for i in range(card[child])]
     return {"names": names, "card": card, "labels": labels, "child": child, "parents": parents, "table": table}
 
